@@ -927,9 +927,9 @@ where
     T: Hash + Eq,
     str: Equivalent<T>,
 {
-    let (from, replaced) = set.replace_full(rule);
-
-    let mut to = default_position;
+    // Resolve the target position before touching the set, so that an error leaves it unchanged.
+    // `to` is an index in the set as it is now; the default position is at most the end.
+    let mut to = default_position.min(set.len());
 
     if let Some(rule_id) = after {
         let idx = set.get_index_of(rule_id).ok_or(InsertPushRuleError::UnknownRuleId)?;
@@ -945,8 +945,15 @@ where
         to = idx;
     }
 
+    let (from, replaced) = set.replace_full(rule);
+
     // Only move the item if it's new or if it was positioned.
     if replaced.is_none() || after.is_some() || before.is_some() {
+        // Taking the rule out of a lower index shifts the target down by one.
+        if from < to {
+            to -= 1;
+        }
+
         set.move_index(from, to);
     }
 
